@@ -355,22 +355,30 @@ lemma EntryOk.mono {n : Nat} {s s' : St} {d : Nat} (h : Step n s s') (hd : Entry
   · exact Or.inl hd
   · exact Or.inr ⟨Nat.lt_of_lt_of_le h1 h.size, by rw [h.cls d h1]; exact h2⟩
 
+lemma cls_ne_geom_lt (s : St) (d : Nat) (h : s.cls d ≠ .geom) : d < s.size := by
+  apply Classical.byContradiction
+  intro hlt
+  apply h
+  unfold St.cls
+  rw [St.obj_eq, Array.getElem?_eq_none (by unfold St.size at hlt; omega)]
+  rfl
+
 lemma condList_spec {n : Nat} (kw : Kw) (j : Nat) (hj : n ≤ j) :
     ∀ (rest : List Nat) (s : St) (pre : List Nat), n ≤ s.size →
-      (∀ d ∈ pre, EntryOk n s d) → (∀ d ∈ rest, d < s.size) →
+      (∀ d ∈ pre, EntryOk n s d) →
       Step n s (condList kw j s pre rest).1 ∧
       ∀ ds, (condList kw j s pre rest).2 = some ds → ∀ d ∈ ds, EntryOk n (condList kw j s pre rest).1 d := by
   intro rest
   induction rest with
   | nil =>
-    intro s pre h hpre _
+    intro s pre h hpre
     refine ⟨Step.refl h, ?_⟩
     intro ds hds d hd
     simp only [condList, Option.some.injEq] at hds
     subst hds
     exact hpre d hd
   | cons d0 rest ih =>
-    intro s pre h hpre hrest
+    intro s pre h hpre
     unfold condList
     have h1 := condDens_step h d0 (restrictKw kw (s.parNamesDens d0))
     have hres := condDens_res s d0 (restrictKw kw (s.parNamesDens d0))
@@ -389,12 +397,9 @@ lemma condList_spec {n : Nat} (kw : Kw) (j : Nat) (hj : n ≤ j) :
           rcases hres' with hf | ⟨he, hc⟩
           · exact Or.inl (Nat.le_trans h hf)
           · subst he
-            have hlt : d < s.size := hrest d (List.mem_cons_self)
+            have hlt : d < s.size := cls_ne_geom_lt s d (by rw [hc]; decide)
             exact EntryOk.mono h12 (Or.inr ⟨hlt, hc⟩)
-      have hrest' : ∀ d ∈ rest, d < (s1.write j .dens (.refs (pre ++ d' :: rest))).size := by
-        intro d hd
-        exact Nat.lt_of_lt_of_le (hrest d (List.mem_cons_of_mem _ hd)) h12.size
-      have := ih (s1.write j .dens (.refs (pre ++ d' :: rest))) (pre ++ [d']) h12.le hpre' hrest'
+      have := ih (s1.write j .dens (.refs (pre ++ d' :: rest))) (pre ++ [d']) h12.le hpre'
       exact ⟨h12.trans this.1, this.2⟩
     · next s1 r _ heq =>
       rw [heq] at h1
@@ -435,5 +440,270 @@ lemma reduce_good {n : Nat} {s : St} (h : n ≤ s.size) (j : Nat) (hj : n ≤ j)
     have hln : n ≤ l := hlik l (by rw [hl]; simp)
     exact ⟨Step.refl h, fun r hr => by simp only [Res.obj.injEq] at hr; omega⟩
   · exact ⟨Step.refl h, fun r hr => by simp only [Res.obj.injEq] at hr; omega⟩
+
+lemma condJoint_good {n : Nat} {s : St} (h : n ≤ s.size) (a : Nat) (kw : Kw) :
+    Step n s (s.condJoint a kw).1 ∧ ∀ r, (s.condJoint a kw).2 = .obj r → n ≤ r := by
+  unfold St.condJoint
+  split
+  · next ds _ =>
+    dsimp only
+    have h1 := step_alloc h (s.obj a)
+    have hj : n ≤ (s.alloc (s.obj a)).2 := by rw [alloc_addr]; exact h
+    have h2 := step_write h1.le (s.alloc (s.obj a)).2 .dens (.refs ds) (Or.inl hj)
+    have h12 := h1.trans h2
+    have h3 := condList_spec kw (s.alloc (s.obj a)).2 hj ds _ [] h12.le (fun d hd => absurd hd (by simp))
+    split
+    · next s3 ds' heq =>
+      rw [heq] at h3
+      have h123 := h12.trans h3.1
+      have h4 := reduce_good h123.le (s.alloc (s.obj a)).2 hj ds' (h3.2 ds' rfl)
+      exact ⟨h123.trans h4.1, h4.2⟩
+    · next s3 heq =>
+      rw [heq] at h3
+      exact ⟨h12.trans h3.1, fun r hr => absurd hr (by simp)⟩
+  · exact ⟨Step.refl h, fun r hr => absurd hr (by simp)⟩
+
+lemma condPost_step {n : Nat} {s : St} (h : n ≤ s.size) (a : Nat) (kw : Kw) : Step n s (s.condPost a kw).1 := by
+  unfold St.condPost
+  split
+  · next l p _ _ =>
+    dsimp only
+    have h1 := makeCopy_step h a
+    have hb : n ≤ (s.makeCopy a).2 := by rw [makeCopy_addr]; exact h
+    have h2 := condLik_good h1.le l []
+    split
+    · next s2 l' heq =>
+      rw [heq] at h2
+      have h12 := h1.trans h2.step
+      have h3 := step_write h12.le (s.makeCopy a).2 .lik (.ref l') (Or.inl hb)
+      have h123 := h12.trans h3
+      have h4 := condDens_step h123.le p []
+      split
+      · next s4 p' heq4 =>
+        rw [heq4] at h4
+        exact (h123.trans h4).trans (step_write (h123.trans h4).le _ .prior _ (Or.inl hb))
+      · next s4 r _ heq4 =>
+        rw [heq4] at h4
+        exact h123.trans h4
+    · next s2 r _ heq =>
+      rw [heq] at h2
+      exact h1.trans h2.step
+  · exact Step.refl h
+
+lemma condAny_step {n : Nat} {s : St} (h : n ≤ s.size) (a : Nat) (kw : Kw) : Step n s (s.condAny a kw).1 := by
+  unfold St.condAny
+  split
+  · exact (condJoint_good h a kw).1
+  · exact (condJoint_good h a kw).1
+  · exact condPost_step h a kw
+  all_goals first | exact condDens_step h a kw | exact Step.refl h
+
+/-! ## evaluation -/
+
+lemma logdDist_step {n : Nat} {s : St} (h : n ≤ s.size) (a : Nat) (kw : Kw) : Step n s (s.logdDist a kw).1 := by
+  unfold St.logdDist
+  dsimp only
+  split
+  · exact Step.refl h
+  · split
+    · exact Step.refl h
+    · split
+      · exact Step.refl h
+      · split
+        · exact resync_step h a
+        · have h1 := condDistOrReg_good (s := s) h a (restrictKw kw (s.condVars a))
+          split
+          · next s1 b heq =>
+            rw [heq] at h1
+            exact h1.step.trans (resync_step h1.step.le b)
+          · next s1 r _ heq =>
+            rw [heq] at h1
+            exact h1.step
+
+lemma logdLik_step {n : Nat} {s : St} (h : n ≤ s.size) (a : Nat) (kw : Kw) : Step n s (s.logdLik a kw).1 := by
+  unfold St.logdLik
+  split
+  · next d data _ _ =>
+    split
+    · exact Step.refl h
+    · have h1 := condDistOrReg_good (s := s) h d kw
+      split
+      · next s1 b heq =>
+        rw [heq] at h1
+        exact h1.step.trans (resync_step h1.step.le b)
+      · next s1 r _ heq =>
+        rw [heq] at h1
+        exact h1.step
+  · exact Step.refl h
+
+lemma logdDens_step {n : Nat} {s : St} (h : n ≤ s.size) (a : Nat) (kw : Kw) : Step n s (s.logdDens a kw).1 := by
+  unfold St.logdDens
+  split
+  · exact logdDist_step h a kw
+  · exact logdDist_step h a kw
+  · exact logdDist_step h a kw
+  · exact logdLik_step h a kw
+  · split <;> exact Step.refl h
+  · exact Step.refl h
+
+lemma logdList_step {n : Nat} (kw : Kw) :
+    ∀ (ds : List Nat) (s : St) (acc : Int), n ≤ s.size → Step n s (logdList kw s acc ds).1 := by
+  intro ds
+  induction ds with
+  | nil => intro s acc h; exact Step.refl h
+  | cons d rest ih =>
+    intro s acc h
+    unfold logdList
+    have h1 := logdDens_step h d (restrictKw kw (s.parNamesDens d))
+    split
+    · next s1 v heq =>
+      rw [heq] at h1
+      exact h1.trans (ih s1 (acc + v) h1.le)
+    · next s1 r _ heq =>
+      rw [heq] at h1
+      exact h1
+
+lemma logdJoint_step {n : Nat} {s : St} (h : n ≤ s.size) (a : Nat) (kw : Kw) : Step n s (s.logdJoint a kw).1 := by
+  unfold St.logdJoint
+  split
+  · split
+    · exact Step.refl h
+    · exact logdList_step kw _ s 0 h
+  · exact Step.refl h
+
+lemma logdPost_step {n : Nat} {s : St} (h : n ≤ s.size) (a : Nat) (kw : Kw) : Step n s (s.logdPost a kw).1 := by
+  unfold St.logdPost
+  split
+  · next l p _ _ =>
+    have h1 := logdLik_step h l kw
+    split
+    · next s1 v1 heq =>
+      rw [heq] at h1
+      have h2 := logdDist_step h1.le p kw
+      split
+      · next s2 v2 heq2 => rw [heq2] at h2; exact h1.trans h2
+      · next s2 r _ heq2 => rw [heq2] at h2; exact h1.trans h2
+    · next s1 r _ heq =>
+      rw [heq] at h1
+      exact h1
+  · exact Step.refl h
+
+lemma logdAny_step {n : Nat} {s : St} (h : n ≤ s.size) (a : Nat) (kw : Kw) : Step n s (s.logdAny a kw).1 := by
+  unfold St.logdAny
+  split
+  · exact logdJoint_step h a kw
+  · exact logdJoint_step h a kw
+  · exact logdPost_step h a kw
+  all_goals first | exact logdDens_step h a kw | exact Step.refl h
+
+lemma touch_step {n : Nat} {s : St} (h : n ≤ s.size) (a : Nat) : Step n s (s.touch a) := by
+  unfold St.touch
+  split
+  · exact resync_step h a
+  · exact syncInner_step h a
+  · split
+    · next d _ => exact (resync_step h d).trans (syncInner_step (resync_step h d).le d)
+    · exact Step.refl h
+  · split
+    · next l p _ _ =>
+      dsimp only
+      have h1 : Step n s (match s.get l .distr with | .ref d => (s.resync d).syncInner d | _ => s) := by
+        split
+        · next d _ => exact (resync_step h d).trans (syncInner_step (resync_step h d).le d)
+        · exact Step.refl h
+      exact (h1.trans (resync_step h1.le p)).trans (syncInner_step (h1.trans (resync_step h1.le p)).le p)
+    · exact Step.refl h
+  · exact Step.refl h
+
+lemma gradAny_step {n : Nat} {s : St} (h : n ≤ s.size) (a : Nat) : Step n s (s.gradAny a).1 := by
+  unfold St.gradAny
+  split
+  all_goals first
+    | exact touch_step h a
+    | exact Step.refl h
+    | (split <;> first | exact touch_step h a | exact Step.refl h)
+
+lemma sampleAny_step {n : Nat} {s : St} (h : n ≤ s.size) (a : Nat) : Step n s (s.sampleAny a).1 := by
+  unfold St.sampleAny
+  split
+  all_goals first
+    | exact Step.refl h
+    | (split <;> first | exact touch_step h a | exact Step.refl h)
+
+lemma toLikAny_step {n : Nat} {s : St} (h : n ≤ s.size) (a : Nat) (data : Int) : Step n s (s.toLikAny a data).1 := by
+  unfold St.toLikAny
+  split
+  all_goals first | exact toLikelihood_step h a data | exact Step.refl h
+
+lemma applyModel_step {n : Nat} {s : St} (h : n ≤ s.size) (m d : Nat) : Step n s (s.applyModel m d).1 := by
+  unfold St.applyModel
+  split
+  · have h1 := step_alloc h (s.obj m)
+    exact h1.trans (step_write h1.le _ .args _ (Or.inl (by rw [alloc_addr]; exact h)))
+  · exact Step.refl h
+
+lemma run_step {n : Nat} {s : St} (h : n ≤ s.size) (op : Op) : Step n s (s.run op).1 := by
+  cases op with
+  | cond a kw => exact condAny_step h a kw
+  | logd a kw => exact logdAny_step h a kw
+  | grad a => exact gradAny_step h a
+  | sample a => exact sampleAny_step h a
+  | tolik a data => exact toLikAny_step h a data
+  | apply m d => exact applyModel_step h m d
+
+lemma runAll_step {n : Nat} : ∀ (ops : List Op) (s : St), n ≤ s.size → Step n s (s.runAll ops) := by
+  intro ops
+  induction ops with
+  | nil => intro s h; exact Step.refl h
+  | cons op ops ih =>
+    intro s h
+    unfold St.runAll
+    have h1 := run_step h op
+    exact h1.trans (ih _ h1.le)
+
+/-! ## fingerprints and names read only non-benign fields of old objects -/
+
+lemma fpFields_nonbenign : ∀ f ∈ fpFields, f.benign = false := by decide
+
+lemma fp_congr (n : Nat) (s s' : St)
+    (h : ∀ a, a < n → s'.cls a = s.cls a ∧ ∀ f, f.benign = false → s'.get a f = s.get a f) :
+    ∀ (fuel a : Nat), fp n fuel s' a = fp n fuel s a := by
+  intro fuel
+  induction fuel with
+  | zero => intro a; rfl
+  | succ k ih =>
+    intro a
+    unfold fp
+    by_cases ha : a < n
+    · rw [if_pos ha, if_pos ha, (h a ha).1]
+      congr 1
+      apply List.map_congr_left
+      intro f hf
+      rw [(h a ha).2 f (fpFields_nonbenign f hf)]
+      split
+      · exact ih _
+      · congr 1
+        apply List.map_congr_left
+        intro b _
+        exact ih b
+      · rfl
+    · rw [if_neg ha, if_neg ha]
+
+lemma Step.fp_eq {n : Nat} {s s' : St} (h : Step n s s') (fuel a : Nat) : fp n fuel s' a = fp n fuel s a :=
+  fp_congr n s s' (fun a ha => ⟨h.cls a (Nat.lt_of_lt_of_le ha h.hn), fun f hf => h.get a f ha hf⟩) fuel a
+
+lemma nameOf_congr (n : Nat) (s s' : St) (h : ∀ a f, a < n → f.benign = false → s'.get a f = s.get a f) :
+    ∀ a, a < n → s'.nameOf a = s.nameOf a := by
+  intro a
+  induction a using Nat.strongRecOn with
+  | _ a ih =>
+    intro ha
+    rw [St.nameOf, St.nameOf, h a .orig ha rfl, h a .name ha rfl]
+    split
+    · next o _ =>
+      split
+      · next ho => exact ih o ho (Nat.lt_trans ho ha)
+      · rfl
+    · rfl
 
 end CuqiVerif.C11
